@@ -193,6 +193,9 @@ func (e *Engine) checkContract(con *Contract) (*checkedContract, error) {
 				if err != nil {
 					return nil, fmt.Errorf("%s: modifies %q: %v", cl.pos, part, err)
 				}
+				if sel, ok := ast.Unparen(ex).(*ast.SelectorExpr); ok {
+					ex = expandPromoted(ci.info, sel)
+				}
 				ci.modifies[cl] = append(ci.modifies[cl], ex)
 			}
 			continue
@@ -220,6 +223,32 @@ func (e *Engine) checkContract(con *Contract) (*checkedContract, error) {
 		ci.exprs[cl] = ex
 	}
 	return ci, nil
+}
+
+// expandPromoted rewrites a selector that reaches a field through embedded
+// structs (d.buf for d.decodeBuffer.buf) into the explicit chain, recording the
+// types of the new nodes, so that frame clauses can name promoted fields.
+func expandPromoted(info *types.Info, x *ast.SelectorExpr) ast.Expr {
+	sel := info.Selections[x]
+	if sel == nil || len(sel.Index()) <= 1 {
+		return x
+	}
+	base := x.X
+	t := info.TypeOf(base)
+	idx := sel.Index()
+	for _, i := range idx[:len(idx)-1] {
+		if pt, ok := t.Underlying().(*types.Pointer); ok {
+			t = pt.Elem()
+		}
+		f := t.Underlying().(*types.Struct).Field(i)
+		ns := &ast.SelectorExpr{X: base, Sel: ast.NewIdent(f.Name())}
+		info.Types[ns] = types.TypeAndValue{Type: f.Type()}
+		base = ns
+		t = f.Type()
+	}
+	out := &ast.SelectorExpr{X: base, Sel: x.Sel}
+	info.Types[out] = info.Types[x]
+	return out
 }
 
 func isInterfaceMethodName(n string) bool {
@@ -548,12 +577,23 @@ func (env *Env) eval(e ast.Expr) Val {
 			}
 		}
 		sel := env.info.Selections[x]
-		if sel == nil || sel.Kind() != types.FieldVal {
+		var selIndex []int
+		if sel != nil && sel.Kind() == types.FieldVal {
+			selIndex = sel.Index()
+		} else if sel == nil {
+			// synthesized selector (expandPromoted): resolve the field by name
+			if obj, index, _ := types.LookupFieldOrMethod(env.typeOf(x.X), true, u.con.pkg.Types, x.Sel.Name); obj != nil {
+				if _, isVar := obj.(*types.Var); isVar {
+					selIndex = index
+				}
+			}
+		}
+		if selIndex == nil {
 			panic(u.errf("contract: unsupported selector %s", exprString(x)))
 		}
 		base := env.eval(x.X)
 		bt := env.typeOf(x.X)
-		for _, fi := range sel.Index() {
+		for _, fi := range selIndex {
 			if pt, ok := bt.Underlying().(*types.Pointer); ok {
 				bt = pt.Elem()
 				switch b := base.(type) {
@@ -594,6 +634,51 @@ func (env *Env) eval(e ast.Expr) Val {
 		}
 	}
 	panic(u.errf("contract: unsupported expression %s (%T)", exprString(e), e))
+}
+
+// evalLoc evaluates an expression that denotes a struct location — a pointer to
+// a struct, or a (possibly nested, possibly embedded) struct-typed field of one —
+// to the reference of that struct object. ok is false when the base is not a
+// heap object (a local struct reached through a cell pointer).
+func (env *Env) evalLoc(e ast.Expr) (ref *Term, ok bool) {
+	u := env.u
+	e = ast.Unparen(e)
+	t := env.typeOf(e)
+	if _, isPtr := t.Underlying().(*types.Pointer); isPtr {
+		r, ok := env.eval(e).(*Term)
+		return r, ok
+	}
+	if !isStructType(t) {
+		return nil, false
+	}
+	switch x := e.(type) {
+	case *ast.StarExpr:
+		r, ok := env.eval(x.X).(*Term)
+		return r, ok
+	case *ast.SelectorExpr:
+		bt := env.typeOf(x.X)
+		if pt, ok := bt.Underlying().(*types.Pointer); ok {
+			bt = pt.Elem()
+		}
+		base, ok := env.evalLoc(x.X)
+		if !ok {
+			return nil, false
+		}
+		_, index, _ := types.LookupFieldOrMethod(bt, true, u.con.pkg.Types, x.Sel.Name)
+		if len(index) == 0 {
+			panic(u.errf("contract: cannot resolve location %s", exprString(e)))
+		}
+		for _, fi := range index {
+			dt := u.m.structInfo(bt)
+			base = u.subRef(dt, fi, base)
+			bt = dt.fields[fi].typ
+			if !isStructType(bt) {
+				panic(u.errf("contract: location %s passes through a non-struct field", exprString(e)))
+			}
+		}
+		return base, true
+	}
+	return nil, false
 }
 
 func (env *Env) indexVal(base Val, bt types.Type, idx *Term) Val {
@@ -798,6 +883,19 @@ func (env *Env) call(x *ast.CallExpr) Val {
 		a := env.eval(x.Args[0]).(*Term)
 		b := env.eval(x.Args[1]).(*Term)
 		return tb.Or(tb.Not(tb.Eq(m.SliceRef(a), m.SliceRef(b))), tb.Eq(m.SliceRef(a), tb.Int(0)))
+	case "freshArray":
+		// freshArray(s): the array backing s was allocated during the call (assumed at a
+		// call site) / by this function (when proved): it is outside the allocation set
+		// of the pre-state, hence distinct from every array known before.
+		res := env.eval(x.Args[0]).(*Term)
+		if env.assuming && env.old != nil {
+			before := u.allocSet(env.old.st)
+			return tb.And(tb.Not(tb.Select(before, m.SliceRef(res))), tb.Lt(tb.Int(0), m.SliceRef(res)), tb.Eq(m.SliceOff(res), m.IxConst(0)))
+		}
+		return tb.And(tb.Not(u.isAlloc0(m.SliceRef(res))), tb.Lt(tb.Int(0), m.SliceRef(res)), tb.Eq(m.SliceOff(res), m.IxConst(0)))
+	case "sameSlice":
+		// sameSlice(a, b): the same slice header (array, start, length, capacity)
+		return tb.Eq(env.eval(x.Args[0]).(*Term), env.eval(x.Args[1]).(*Term))
 	case "unchanged":
 		// unchanged(s): the backing array of s holds what it held on entry
 		if env.old == nil {
